@@ -1439,8 +1439,8 @@ def meta(ctx):
         "is read from the source and tied by generated string return values of 5..150 characters",
         "one thread per case for -W var (the global watch item is shared between threads); no trace_on/trace_off under "
         "interleaved threads (mcount_enabled is one switch for the whole process, the model is per thread)",
-        "stream-level placement of watch events is a theorem only on the bounded domain of C17_watch_stream_small; "
-        "elsewhere it is tied by correspondence and the times / watch checkers",
+        "stream-level placement of watch events is a theorem for configurations without threshold (C17_stream_spec); with "
+        "thresholds / filters it is tied by correspondence and the times / watch checkers",
         "perf counters and /proc/self/statm are replaced by interposed sources; the kernel interfaces themselves are not exercised",
     ]
 
